@@ -458,7 +458,7 @@ def witness_cases():
 
 def all_cases(ctx):
   cs = witness_cases() + fixed_cases()
-  for _ in range(ctx.n(500, 15000)):
+  for _ in range(ctx.n(350, 15000)):
     cs.append(gen_case(ctx.rng))
   if ctx.tier == 'thorough':
     cs.extend(exhaustive_cases())
